@@ -274,6 +274,15 @@ func (t *curTr) stmt(s ast.Stmt) []string {
 			return []string{strings.TrimSuffix(strings.TrimPrefix(t.chain(conds, bodies), "(CSeq "), " CDone)")}
 		}
 	case *ast.ReturnStmt:
+		if len(x.Results) == 1 {
+			// func(...) error
+			if isIdent(x.Results[0], "nil") {
+				return []string{"RetNil"}
+			}
+			if _, isCall := x.Results[0].(*ast.CallExpr); isCall {
+				return []string{"RetErr"}
+			}
+		}
 		if len(x.Results) == 2 {
 			if isIdent(x.Results[1], "nil") {
 				if k, ok := t.offset(x.Results[0]); ok {
@@ -296,6 +305,9 @@ func genCurProgs(byDir map[string]*parsed) []*genFile {
 	report := map[string]interface{}{}
 	for _, it := range []struct{ dir, file, fn, name, sig string }{
 		{"internal/decoder", "context.go", "skipString", "dec_skipString_prog", "func(buf []byte, cursor int64) (int64, error)"},
+		{"internal/decoder", "context.go", "validateTrue", "dec_validateTrue_prog", "func(buf []byte, cursor int64) error"},
+		{"internal/decoder", "context.go", "validateFalse", "dec_validateFalse_prog", "func(buf []byte, cursor int64) error"},
+		{"internal/decoder", "context.go", "validateNull", "dec_validateNull_prog", "func(buf []byte, cursor int64) error"},
 	} {
 		p := byDir[it.dir]
 		t := &curTr{p: p}
